@@ -383,6 +383,9 @@ func valueAccessors(vm *otto.Otto, v otto.Value) (bad string) {
 				if _, ok := x.(hostPanicVal); ok {
 					return
 				}
+				if _, ok := x.(harnessAbort); ok {
+					return // the harness's own step cap
+				}
 				bad = fmt.Sprintf("Value.%s panicked with %T: %v", name, x, clip(fmt.Sprint(x)))
 			}
 		}()
@@ -753,9 +756,26 @@ func (e fsEngine) Exec(ci interface{}, st *Stats) (*Violation, interface{}, bool
 	if c.Fault == "prop" && c.Prog != "" {
 		r := newFSRuntime()
 		st.Runs++
+		// a text that simply does not terminate is cut off by a panicking interrupt
+		// function (which no script try can intercept) and not judged
+		steps, capped := 0, false
+		otto.VerifStep = func(o *otto.Otto, k otto.VerifStepKind, n interface{}) {
+			if steps++; steps%300000 == 0 && o.Interrupt != nil {
+				capped = true
+				select {
+				case o.Interrupt <- func() { panic(harnessAbort{"step cap"}) }:
+				default:
+				}
+			}
+		}
+		defer func() { otto.VerifStep = nil }()
 		val, err, panicked, pv := protectedRun(r.vm, c.Prog)
 		if _, injected := pv.(hostPanicVal); panicked && injected {
 			return nil, nil, true // the program's own host function panicked: allowed out
+		}
+		if _, cut := pv.(harnessAbort); panicked && cut && capped {
+			st.Probe("nonterminating_text_cut_off")
+			return nil, nil, true
 		}
 		if panicked {
 			return viol("C02", "go_panic_escaped", "`%s`: Run panicked with %T: %v", c.Prog, pv, clip(fmt.Sprint(pv))), c, true
@@ -916,6 +936,10 @@ func (e fsEngine) Exec(ci interface{}, st *Stats) (*Violation, interface{}, bool
 }
 
 var collectMode bool
+
+// zooEnv defines the free names the syntax zoo uses, so that its items run to
+// completion instead of stopping at the first ReferenceError.
+const zooEnv = "var a=1,b=2,c=3,d=4,e=5,f=function(){return f},g=6,h=7,i=0,j=8,k='p',l=9,m=10,o={p:1,a:{},b:{c:function(){return o},if:1,new:{typeof:2},in:[1,[2]]},in:[1,[2]]},q,r,s='s',t,u,v,w,x=0,y=1,z=2;\n"
 
 // every operator and syntactic form applied to a value of each kind, one per
 // Run (no script try/catch that could mask a Go panic)
@@ -1329,6 +1353,14 @@ func (fsEngine) Enumerate(tier string) []interface{} {
 	}
 	for _, p := range labelProgs() {
 		out = append(out, &FSCase{Engine: "faultsweep", Fault: "prop", Prog: p})
+	}
+	// every syntactic form of the parser engine's zoo is also executed: bare (most
+	// stop early on an unresolvable name) and with its free names defined
+	for _, z := range syntaxZoo {
+		// (completion value 0: the accessor battery calls a returned function, and
+		// some items evaluate to functions that loop for ever when called)
+		out = append(out, &FSCase{Engine: "faultsweep", Fault: "prop", Prog: z + "\n;0"})
+		out = append(out, &FSCase{Engine: "faultsweep", Fault: "prop", Prog: zooEnv + z + "\n;0"})
 	}
 	// nesting that every implementation must survive (all kinds), and nesting that
 	// is known to kill the process (see known_findings.json): the recursive-descent
